@@ -2,6 +2,7 @@ import AfkakProps.Open.C19
 import Afkak.Monitor.C19
 import AfkakProofs.Producer.AccTrace
 import AfkakProofs.Producer.Stop
+import AfkakProofs.Producer.Sids
 import AfkakProofs.Producer.Once
 /-!
 # C19 — Batching thresholds, time limit and cancellation behave as documented
@@ -23,6 +24,22 @@ theorem C19_accounting_state (cfg : Cfg) (evs : List Ev) :
   induction evs with
   | nil => intro st h; exact h
   | cons e rest ih => intro st h; simp only [run]; exact ih _ (step_acc cfg st e h)
+
+/-- Cancelling a send before dispatch guarantees its messages are never transmitted: in every reachable
+    state (any event list `before`), if the send is still queued and its Deferred has not fired, then
+    after `cancel` no `produce` observation of ANY continuation `after` carries it. -/
+theorem C19_cancel_before_dispatch_never_sent (cfg : Cfg) (before after : List Ev) (sid : Sid)
+    (hq : sid ∈ (run cfg (St.init cfg) before).1.queue.map (·.sid))
+    (ho : sid ∈ (run cfg (St.init cfg) before).1.outstanding) :
+    ∀ rid ps, Ob.produce rid ps ∈ (run cfg (run cfg (St.init cfg) before).1 (.cancel sid :: after)).2 →
+      sid ∉ payloadSids ps := by
+  have hk := kinv_run cfg before _ (kinv_init cfg)
+  obtain ⟨g1, g2⟩ := cancel_gone cfg _ sid hk hq ho
+  intro rid ps hm
+  simp only [run] at hm
+  rcases List.mem_append.mp hm with hm | hm
+  · exact absurd hm (g2 rid ps)
+  · exact gone_run cfg after _ sid g1 rid ps hm
 
 /-- Stop transmits nothing further — for ANY state `st` (reachable or not) in which `stop` is enabled,
     any answer of the client to the cancels (`pout`, `mouts`, `wipe`), and ANY later event list: neither
@@ -63,6 +80,9 @@ client does; the retry timer fires later; nothing goes out.  And: counters move 
 def exCfg : Cfg := Cfg.ofArgs 1 3 (1/4) true 10 0 (some 1) false
 def exCfg2 : Cfg := Cfg.ofArgs 1 5 (1/4) false 1 1 none false
 def exEvs2 : List Ev := [.metaSet 0 0 (some [0, 1]), .send 0 0 none [some 10]]
+/- a queued send is cancelled; the batch later goes out without it -/
+example : (run exCfg (St.init exCfg) [.metaSet 0 0 (some [0]), .send 0 0 none [some 3], .send 1 0 none [some 4], .cancel 0, .tick]).2
+    = [.fire 0 (.err (.acancelled (some false))), .produce 0 [⟨⟨0, 0⟩, [1]⟩]] := by decide +kernel
 example : stopValid (run exCfg2 (St.init exCfg2) exEvs2).1 (some (.failed [] [⟨⟨0, 0⟩, .tcancelled, true⟩])) = true := by
   decide +kernel
 example : (run exCfg2 (St.init exCfg2) (exEvs2 ++ [.stop true (some (.failed [] [⟨⟨0, 0⟩, .tcancelled, true⟩])) [], .timer 0, .tick])).2
@@ -77,6 +97,7 @@ end Afkak.Props.C19
 /- OBLIGATIONS
 C19_accounting
 C19_accounting_state
+C19_cancel_before_dispatch_never_sent
 C19_stop_transmits_nothing
 C19_stop_fires_all
 C19_outstanding_nodup
@@ -84,6 +105,7 @@ C19_outstanding_nodup
 /- OPEN_STATEMENTS
 C19_dispatch_iff
 C19_cancel
+C19_cancel_later_detaches
 C19_stop
 C19_wait_bound
 -/
